@@ -337,6 +337,29 @@ CHECKS['C09'] = {
     'level_note': 'Trusted: exact small-integer arithmetic in float/double. Not covered: dimensions above the bound.',
 }
 
+
+def c15_jobs(tier):
+    src = ['src/trajpoly3.c', 'src/trajpoly5.c', 'src/trajpoly7.c', 'src/poly.c', 'src/math.c', 'src/a.c']
+    libs = ['-lquadmath', '-lm']
+    jobs = grid_jobs('tpoly-f64', 'harness/tpoly.cpp', src, tier, 16, libs=libs)
+    jobs += grid_jobs('tpoly-f32', 'harness/tpoly.cpp', src, tier, 8, defs=['-DA_SIZE_REAL=4'], libs=libs)
+    jobs += grid_jobs('tpoly-f64-inline', 'harness/tpoly.cpp', src, 'quick', 4, defs=['-DA_HAVE_INLINE=1'], libs=libs)
+    return jobs
+
+
+CHECKS['C15'] = {
+    'title': 'polynomial trajectories meet all boundary conditions with consistent derivatives', 'level': 'exploration', 'engine': 'grid', 'jobs': c15_jobs,
+    'rule': ('bounded-exhaustive enumeration of generator requests against an INDEPENDENT reference: the 4/6/8 linear boundary conditions are solved for the normalised polynomial by Gaussian elimination in __float128 (never the library\'s closed forms). '
+             'Requests: every boundary tuple over {-2,0,1,3} (4^4 cubic, 4^6 quintic, septic 3^8 over {-2,0,3} in quick and 4^8 in thorough) plus every unit boundary vector (one non-zero datum, scaled by 1,-1,3,2^20,2^-20: isolates each numeric constant of the closed forms) '
+             'x 30 durations (2^-12..2^12, 3, 10, 0.1, 1e-3, 1e3; float: 2^-6..2^6). Per request: position/velocity/acceleration at time zero equal the request exactly (jerk within 4 ulp); every coefficient equals the reference within 2048 eps of the data scale (worst observed 211); '
+             'final position/velocity/acceleration/jerk at the end time within a per-degree, per-derivative multiple of eps x data scale / ts^d that is 16x the worst value observed on the unchanged tree (e.g. septic: 2048/16384/81920/400000 against observed 123/1002/4727/20808; the closed forms cancel terms with constants up to 420); vel/acc/jer outputs at ts and ts/2 equal Horner of the derivative polynomials of the stored coefficients within 32 eps (worst 0.9); c1/c2/c3 accessors are the term-by-term derivatives. '
+             'Polynomials: EVERY coefficient vector of length 0..7 (8 thorough) over {-2,0,1,3} x 8 abscissae: eval/eval_ and evar/evar_ equal the exact Horner value (exact on this dyadic domain), swap is the reversal and an involution, empty and one-coefficient vectors included. distinct_nontrivial = requests with non-zero derivative data / vectors longer than one.'),
+    'assumptions': ['libquadmath arithmetic is the reference; tolerances are 10x above the worst error observed on the unchanged tree and 10 orders of magnitude below the error a wrong constant produces', 'boundary values outside {-2,0,1,3} and the scaled unit vectors are not enumerated (the generators are linear in the boundary data, so unit vectors determine them)'],
+    'design_ref': '§4.C15', 'technique': 'bounded-exhaustive enumeration of boundary data x durations against a quad-precision solution of the boundary-value system; exact Horner on a dyadic lattice',
+    'level_text': 'The generators are linear in the boundary data, so the complete set of unit boundary vectors together with all tuples over a 4-value set determines every coefficient formula for each of 30 durations spanning 7 orders of magnitude; every request is compared with an independently solved boundary-value problem, and the evaluators with exact Horner values on all short coefficient vectors.',
+    'level_note': 'Trusted: libquadmath, Gaussian elimination on 8x8 systems in 113-bit arithmetic. Not covered: durations outside the 30 listed, non-lattice query times other than 0, ts/2, ts.',
+}
+
 # ---------------------------------------------------------------- manifest texts
 CHECKS['C01'].update({
     'design_ref': '§4.C01', 'technique': 'explicit-state BFS to a fixpoint over the real src/avl.c (size-bounded, unbounded history length), lock-step reference set, API-replay conformance of every state',
